@@ -217,6 +217,8 @@ type cmdCase struct {
 	// SdkWd != "": the observed invocation is sdk.RunThriftgoAsSDK(SdkWd, nil, argv[1:]...) instead of main()
 	PreludeWd []string
 	SdkWd     string
+	// PreludeRemove: paths removed after the earlier invocations (an obstacle repaired before the observed run)
+	PreludeRemove []string
 }
 
 type plugSpec struct {
@@ -280,6 +282,9 @@ func (c *cmdCase) spec(seed uint64) *simrt.Spec {
 		}
 		if c.SdkWd != "" {
 			d["sdk_wd"] = c.SdkWd
+		}
+		if len(c.PreludeRemove) > 0 {
+			d["prelude_remove"] = c.PreludeRemove
 		}
 		sp.Driver, _ = json.Marshal(d)
 	}
